@@ -4,6 +4,8 @@ import "time"
 
 var counterInstr = []string{"internal/counter", "internal/mmap"}
 
+var uploadInstr = []string{"internal/upload", "internal/telemetry"}
+
 var chainPkgs = map[string]string{
 	"internal/verifgen/ex.ample-pkg/v2":              "harness/gen/chain",
 	"internal/verifgen/deep/er/path.with.dots/chain": "harness/gen/chain",
@@ -58,6 +60,7 @@ func props() map[string]Prop {
 			ID: "C09", Level: "exploration",
 			Units: []Unit{
 				{Name: "counter", Pkg: "internal/counter", Harness: "internal_counter", Run: "^TestVerifC09$", Instrument: counterInstr, Timeout: 30 * time.Minute},
+				{Name: "uploader", Pkg: "internal/upload", Harness: "internal_upload", Run: "^TestVerifUploadSeq$", Instrument: uploadInstr, Timeout: 30 * time.Minute},
 			},
 			Assume: []string{
 				"the clock is the CounterTime test variable and returns UTC times, as documented",
@@ -75,9 +78,36 @@ func props() map[string]Prop {
 				"the uncompressed rendering is the frame's full symbol name followed by a location of the documented shape",
 			},
 		},
+		{
+			ID: "C07", Level: "exploration",
+			Units: []Unit{
+				{Name: "seq", Pkg: "internal/upload", Harness: "internal_upload", Run: "^TestVerifUploadSeq$", Instrument: uploadInstr, Timeout: 30 * time.Minute},
+			},
+			Assume: []string{"counter names are valid UTF-8 and sums stay below 2^62 (reports carry int64 in JSON)", "counter files are produced by the independent writer in /verif/ref with the documented metadata"},
+		},
+		{
+			ID: "C01", Level: "exploration",
+			Units: []Unit{
+				{Name: "seq", Pkg: "internal/upload", Harness: "internal_upload", Run: "^TestVerifUploadSeq$", Instrument: uploadInstr, Timeout: 30 * time.Minute},
+			},
+			Assume: []string{"the upload configuration is handed to the uploader directly (the download through the module proxy is not exercised)", "X is forced through the instrumented crypto/rand.Read call so that boundary values X == rate are reached"},
+		},
+		{
+			ID: "C02", Level: "exploration",
+			Units: []Unit{
+				{Name: "seq", Pkg: "internal/upload", Harness: "internal_upload", Run: "^TestVerifUploadSeq$", Instrument: uploadInstr, Timeout: 30 * time.Minute},
+			},
+			Assume: []string{"start times are passed explicitly (virtual calendar 2019-2031)"},
+		},
 	}
 	m := map[string]Prop{}
 	for _, p := range ps {
+		for i := range p.Units {
+			if p.Units[i].Harness == "internal_counter" {
+				// the counter harness files are compiled together; the C15 ones import the generated packages
+				p.Units[i].Extra = chainPkgs
+			}
+		}
 		m[p.ID] = p
 	}
 	return m
